@@ -94,6 +94,37 @@ def pad_module(tree):
     return P().visit(tree)
 
 
+def split_module(tree):
+    """`x = a.m1(..).m2(..)` at statement level becomes `_s1 = a.m1(..)` ; `x = _s1.m2(..)` (one level), inside function bodies only"""
+    counter = [0]
+
+    class S(ast.NodeTransformer):
+        def visit_FunctionDef(self, fn):
+            self.generic_visit(fn)
+            fn.body = self.rewrite(fn.body)
+            return fn
+
+        def rewrite(self, body):
+            out = []
+            for st in body:
+                for fld in ("body", "orelse", "finalbody"):
+                    sub = getattr(st, fld, None)
+                    if isinstance(sub, list) and sub and isinstance(sub[0], ast.stmt) and not isinstance(st, (ast.FunctionDef, ast.ClassDef)):
+                        setattr(st, fld, self.rewrite(sub))
+                if isinstance(st, ast.Assign) and len(st.targets) == 1 and isinstance(st.targets[0], ast.Name) and isinstance(st.value, ast.Call) \
+                        and isinstance(st.value.func, ast.Attribute) and isinstance(st.value.func.value, ast.Call) and isinstance(st.value.func.value.func, ast.Attribute):
+                    counter[0] += 1
+                    tmp = f"_s{counter[0]}"
+                    inner = st.value.func.value
+                    out.append(ast.Assign(targets=[ast.Name(id=tmp, ctx=ast.Store())], value=inner))
+                    st.value.func.value = ast.Name(id=tmp, ctx=ast.Load())
+                out.append(st)
+            return out
+    t = S().visit(tree)
+    ast.fix_missing_locations(t)
+    return t
+
+
 def transform(dst, what):
     n = 0
     for dp, dn, fns in os.walk(os.path.join(dst, "renormalizer")):
@@ -109,6 +140,8 @@ def transform(dst, what):
                 tree = rename_module(tree)
             if what == "pad":
                 tree = pad_module(tree)
+            if what == "split":
+                tree = split_module(tree)
             ast.fix_missing_locations(tree)
             out = ast.unparse(tree)
             compile(out, p, "exec")
